@@ -593,6 +593,8 @@ pub struct OpsOpts {
     pub closed_imports: bool,
     /// drop fragments that no operation spreads
     pub cover_fragments: bool,
+    /// fragments of different files may share a name (never in a project that must pass `check`)
+    pub name_collisions: bool,
 }
 
 impl Default for OpsOpts {
@@ -607,6 +609,7 @@ impl Default for OpsOpts {
             plain: false,
             closed_imports: false,
             cover_fragments: false,
+            name_collisions: false,
             dirs: vec!["src".into(), "src/a".into(), "src/a/b".into(), "src/c".into()],
         }
     }
@@ -807,6 +810,7 @@ pub fn gen_ops(rng: &mut Rng, m: &SchemaModel, o: &OpsOpts) -> Vec<OpFileModel> 
     }
     // 2. fragments per file (names, targets), global order
     let mut frags: Vec<Vec<FragInfo>> = Vec::new();
+    let mut all_names: Vec<String> = Vec::new();
     let mut g = 0;
     for fi in 0..n_files {
         // file 0 tends to be an "entry" (operations), later files tend to be fragment libraries
@@ -823,6 +827,9 @@ pub fn gen_ops(rng: &mut Rng, m: &SchemaModel, o: &OpsOpts) -> Vec<OpFileModel> 
                 1 => format!("{on}{g}Doc"),
                 _ => format!("{on}Frag{g}"),
             };
+            // same fragment name in another file: identity is (file, name), not the name
+            let name = if o.name_collisions && !all_names.is_empty() && rng.chance(1, 6) { rng.pick(&all_names).clone() } else { name };
+            all_names.push(name.clone());
             v.push(FragInfo { name, on, global: g });
             g += 1;
         }
